@@ -136,6 +136,25 @@ CLAIMS = {
              "exercised by the tie. Over-mounts on /proc: corollary of C06 (the link is verified with verify_same_mnt).",
         technique="Lean 4 proof (total/injective function, program shape, run inversion) + descriptor-number x history differential",
         ref="DESIGN.md §8 C09"),
+    "C10": dict(
+        text="Lean theorems (Props/C10.lean) over Runs, i.e. for every placement of failing calls: a system-call wrapper returns ok only "
+             "if the kernel's answer to its call was the success answer (openat, openat2, readlinkat, mkdirat, mknodat, unlinkat, "
+             "symlinkat, linkat, renameat/renameat2), so an err answer always becomes an error value; a successful single *at call of "
+             "create made exactly one mutating call the kernel acknowledged; the kernel backend makes at most 16 openat2 calls, EAGAIN "
+             "never reaches the caller and resolve has no partial result; fetch_mnt_id reports 'unknown' only for ENOSYS/EINVAL or a "
+             "missing mount-id bit and verify_same_mnt succeeds only on equal ids (fails closed); all model programs are total "
+             "functions. Tie and oracle: fault-injection suite — for generated (tree, operation, backend), every index of the "
+             "unperturbed syscall trace x 12 errnos (single faults), descriptor exhaustion from every index, and EAGAIN on every in-root "
+             "openat2, injected below the wrappers by the interposer; every run is replayed through the model (which must predict the "
+             "same error path call by call) and checked for: no panic, descriptor table unchanged, nothing outside the root changed, "
+             "no success reported for work not done (independent openat2 look-up afterwards), EAGAIN-forever never succeeds. First-use "
+             "initialisation: the same single faults and exhaustion in forked fresh processes (no panic, no death, later calls recover).",
+        note="Finding F9d (first use under descriptor exhaustion panicked in the global procfs handle's Lazy and poisoned it) was found "
+             "by this suite and repaired. Panics inside error-message construction when the diagnostic /proc reads themselves fail "
+             "repeatedly are outside the single-fault quantifier and are modelled (Err.panic) rather than proved absent. An injected "
+             "ENOENT on remove_all is tolerated by design (C13) and exempt from the work-done oracle.",
+        technique="Lean 4 proof (run inversion: failure answers never become success; bounded retry; fail-closed comparisons) + exhaustive single-fault injection replayed through the model",
+        ref="DESIGN.md §8 C10"),
     "C11": dict(
         text="Lean theorems (Props/C11.lean): for every environment, every call by which an operation can obtain a descriptor "
              "(openat, openat2, dup, fsopen, fsmount, open_tree) asks for close-on-exec — in particular the returned descriptor "
